@@ -23,6 +23,8 @@ vars == <<cfg, out>>
 
 \* ---- configurations: family x parameters x dimension x index x evaluation point
 Pts(dim) == {[j \in 1..dim |-> <<((s * 7 + j * 5) % 9) - 4, 1 + ((s + j) % 3)>>] : s \in 1..(IF Level = 1 THEN 2 ELSE 5)}
+            \* lattice points (all coordinates integers): also handed over with an integer dtype / as a list of ints
+            \cup {[j \in 1..dim |-> <<((s * 3 + j * 2) % 5) - 2, 1>>] : s \in 1..(IF Level = 1 THEN 1 ELSE 3)}
 Params ==
     {[fam |-> "constant"], [fam |-> "identity"]}
     \cup {[fam |-> "monomial", exp |-> e, pre |-> p] : e \in 0..(IF Level = 1 THEN 3 ELSE 5), p \in {<<1, 1>>, <<-3, 2>>}}
